@@ -25,6 +25,8 @@ struct Params {
     jitter: i64,
     sizes: Vec<usize>,
     frag: usize,
+    /// a second RELIABLE reader whose acknowledgements are never disturbed
+    healthy_second_reader: bool,
 }
 
 impl Params {
@@ -44,6 +46,7 @@ impl Params {
             .set("policy", format!("{:?}", self.policy))
             .set("payload_lens", self.sizes.clone())
             .set("fragment_size", self.frag)
+            .set("healthy_second_reader", self.healthy_second_reader)
     }
 }
 
@@ -66,6 +69,7 @@ fn gen_params(rng: &mut Rng) -> Params {
         jitter: *rng.pick(&[0i64, 1000, 1_000_000]),
         sizes,
         frag,
+        healthy_second_reader: rng.chance(0.4),
     }
 }
 
@@ -127,7 +131,27 @@ async fn scenario(w: World, p: Params) -> Outcome {
     let dpp = new_participant(&w, 0).await;
     let tp = new_topic::<Msg>(&dpp, "KL", "Msg").await;
     let sbp = new_subscriber(&dpp).await;
-    out.matched = wait_matched(&sim, &dw, 1, 20 * SEC).await && wait_reader_matched(&sim, &dr, 1, 20 * SEC).await;
+    // optional second reliable reader (participant 3) that always acknowledges promptly: the
+    // writer must still wait for the slower one
+    let mut second = None;
+    if p.healthy_second_reader {
+        let dp2 = new_participant(&w, 0).await;
+        let t2 = new_topic::<Msg>(&dp2, "KL", "Msg").await;
+        let sb2 = new_subscriber(&dp2).await;
+        let dr2 = new_reader::<Msg>(
+            &sb2,
+            &t2,
+            DataReaderQos {
+                reliability: reliable(100),
+                history: keep_all(),
+                ..Default::default()
+            },
+        )
+        .await;
+        second = Some((dp2, t2, sb2, dr2));
+    }
+    let n_readers = if p.healthy_second_reader { 2 } else { 1 };
+    out.matched = wait_matched(&sim, &dw, n_readers, 20 * SEC).await && wait_reader_matched(&sim, &dr, 1, 20 * SEC).await;
     if !out.matched {
         return out;
     }
@@ -143,7 +167,7 @@ async fn scenario(w: World, p: Params) -> Outcome {
                         }
                     }
                     1 => {
-                        if rng.chance(loss) {
+                        if (pkt.src == 1 || pkt.dst == 1) && rng.chance(loss) {
                             return vec![];
                         }
                     }
@@ -248,6 +272,7 @@ async fn scenario(w: World, p: Params) -> Outcome {
         }
         sim.sleep(50 * MS).await;
     }
+    drop(second);
     out
 }
 
